@@ -488,6 +488,176 @@ def run_conc(tier, seed, log, kinds=None):
     return {"coverage": cov, "samples": samples, "violations": violations}
 
 
+# --------------------------------------------------------------------------- the real binary (C20, C11)
+
+def _free_port():
+    import socket
+    s = socket.socket()
+    s.bind(("127.0.0.1", 0))
+    p = s.getsockname()[1]
+    s.close()
+    return p
+
+
+BASE_TOML = """name = "{name}"
+admin_info = "adm"
+info = "inf"
+listen = "127.0.0.1"
+port = {port}
+network = "BinNet"
+{password}
+max_joins = 2
+ping_timeout = 100
+pong_timeout = 30
+motd = "binary motd"
+dns_lookup = false
+log_level = "ERROR"
+[default_user_modes]
+invisible = false
+oper = false
+local_oper = false
+registered = false
+wallops = true
+[[operators]]
+name = "root"
+password = "{operhash}"
+{extra}
+"""
+
+
+def run_binary(tier, seed, log, want_die=True):
+    """build /repo's own binary (no hooks) and run it: start-up validation, -g, welcome burst, DIE"""
+    import socket, subprocess, time, tempfile
+    res = {"coverage": {}, "samples": [], "violations": []}
+    tdir = runner.WORK + "/bin-target"
+    r = runner.sh(["cargo", "build", "--offline", "--target-dir", tdir], cwd=runner.REPO, timeout=1800)
+    if r.returncode != 0:
+        raise runner.BuildError("cargo build of /repo failed: " + r.stderr[-2000:])
+    exe = tdir + "/debug/simple-irc-server"
+    checks = 0
+
+    def viol(sig, what, **kw):
+        kw["what"] = what
+        res["violations"].append(("binary:" + sig, kw))
+
+    # -g prints a hash
+    g = subprocess.run([exe, "-g", "-P", "binpw"], capture_output=True, text=True, timeout=60)
+    m = re.search(r"Password Hash: (\S+)", g.stdout)
+    checks += 1
+    if not m:
+        viol("gen-hash", "'-g -P pw' did not print a hash", stdout=g.stdout[-300:], stderr=g.stderr[-300:])
+        return res
+    srvhash = m.group(1)
+    operhash = re.search(r"Password Hash: (\S+)", subprocess.run([exe, "-g", "-P", "rootpw"], capture_output=True,
+                                                                  text=True, timeout=60).stdout).group(1)
+
+    def write_cfg(**kw):
+        d = dict(name="bin.test", port=_free_port(), password='password = "%s"' % srvhash, operhash=operhash, extra="")
+        d.update(kw)
+        f = tempfile.NamedTemporaryFile("w", suffix=".toml", dir=runner.WORK, delete=False)
+        f.write(BASE_TOML.format(**d))
+        f.close()
+        return f.name, d["port"]
+
+    # invalid configurations must exit with an error instead of serving
+    bad = [("name-without-dot", dict(name="nodot"), []),
+           ("bad-password-hash", dict(password='password = "tooshort"'), []),
+           ("bad-operator-hash", dict(operhash="xx"), []),
+           ("bad-channel-name", dict(extra='[[channels]]\nname = "nochan"\n[channels.modes]\ninvite_only = false\nmoderated = false\nsecret = false\nprotected_topic = false\nno_external_messages = false'), []),
+           ("bad-user-name", dict(extra='[[users]]\nname = "a.b"\nnick = "ab"'), []),
+           ("cli-name-without-dot", dict(), ["-n", "clinodot"]),
+           ("tls-cert-without-key", dict(), ["-C", "cert.pem"])]
+    for sig, kw, args in bad:
+        path, port = write_cfg(**kw)
+        checks += 1
+        try:
+            pr = subprocess.run([exe, "-c", path] + args, capture_output=True, text=True, timeout=10)
+            if pr.returncode == 0:
+                viol("invalid-config-accepted:" + sig, "the server exited 0 on an invalid configuration", config=open(path).read())
+        except subprocess.TimeoutExpired:
+            viol("invalid-config-served:" + sig, "the server kept running on an invalid configuration (%s)" % sig,
+                 config=open(path).read(), args=args)
+        os.remove(path)
+
+    # a valid configuration serves; the -g hash accepts exactly its password; documented settings govern
+    path, port = write_cfg()
+    srv = subprocess.Popen([exe, "-c", path, "-N", "CliNet"], stdout=subprocess.PIPE, stderr=subprocess.PIPE)
+    try:
+        def connect():
+            for _ in range(100):
+                try:
+                    return socket.create_connection(("127.0.0.1", port), timeout=5)
+                except OSError:
+                    time.sleep(0.05)
+            return None
+
+        def talk(lines, until, timeout=10):
+            c = connect()
+            if c is None:
+                return None, ""
+            c.sendall(("\r\n".join(lines) + "\r\n").encode())
+            buf = b""
+            c.settimeout(timeout)
+            try:
+                while until.encode() not in buf:
+                    d = c.recv(65536)
+                    if not d:
+                        break
+                    buf += d
+            except OSError:
+                pass
+            return c, buf.decode("utf-8", "replace")
+        checks += 1
+        c1, out = talk(["PASS binpw", "NICK alpha", "USER a 0 * :A"], " 221 ")
+        if c1 is None:
+            viol("valid-config-not-served", "the server does not accept connections with a valid configuration", config=open(path).read())
+            return res
+        if " 001 alpha :Welcome to the CliNet Network" not in out:
+            viol("welcome-network", "001 does not carry the network name given with -N (CLI overrides file)", got=out[:400])
+        if "Your host is bin.test" not in out or " 372 alpha :binary motd" not in out:
+            viol("welcome-name-motd", "welcome burst does not carry the configured name / MOTD", got=out[:800])
+        if "MAXCHANNELS=2" not in out or " 221 alpha +w" not in out:
+            viol("welcome-maxjoins-modes", "ISUPPORT / 221 do not reflect max_joins / default_user_modes", got=out[-600:])
+        checks += 1
+        c2, out2 = talk(["PASS wrongpw", "NICK beta", "USER b 0 * :B"], " 464 ", timeout=5)
+        if " 464 " not in out2 or " 001 " in out2:
+            viol("wrong-password-accepted", "a password other than the one the -g hash was generated from was not refused", got=out2[:400])
+        # max_joins governs
+        checks += 1
+        c1.sendall(b"JOIN #a\r\nJOIN #b\r\nJOIN #c\r\nPING done\r\n")
+        buf = b""
+        c1.settimeout(5)
+        try:
+            while b"PONG" not in buf:
+                buf += c1.recv(65536)
+        except OSError:
+            pass
+        if b" 405 alpha #c " not in buf:
+            viol("max-joins", "the third JOIN was not refused with 405 under max_joins = 2", got=buf.decode("utf-8", "replace")[-400:])
+        if want_die:
+            # OPER + DIE stop the server process
+            checks += 1
+            c1.sendall(b"OPER root rootpw\r\nDIE :bye\r\n")
+            try:
+                srv.wait(timeout=10)
+            except subprocess.TimeoutExpired:
+                viol("die-does-not-stop", "the server process keeps running after DIE from an operator")
+        for c in (c1, c2):
+            try:
+                c and c.close()
+            except OSError:
+                pass
+    finally:
+        if srv.poll() is None:
+            srv.kill()
+        try:
+            os.remove(path)
+        except OSError:
+            pass
+    res["coverage"] = {"binary_checks": checks}
+    return res
+
+
 def run_extractor(script, sig, what):
     r = runner.sh(["python3", runner.V + "/tools/" + script], timeout=120)
     try:
@@ -523,6 +693,15 @@ def run(pid, tier, seed, log):
             if d:
                 viol[0][1]["differences"] = d
                 out["violations"] += viol
+    if pid == "C20":
+        b = run_binary(tier, seed, log)
+        out["coverage"].update(b["coverage"])
+        out["violations"] += b["violations"]
+    if pid == "C11":
+        # "DIE ends all sessions and stops the server": observed on the real binary
+        b = run_binary(tier, seed, log)
+        out["coverage"].update(b["coverage"])
+        out["violations"] += [v for v in b["violations"] if v[0].startswith("binary:die")]
     if pid == "C05":
         info, viol = run_extractor("panic_sites.py", "new-panic-site",
                                    "a handler contains an unwrap/expect/panic!/checked-subtraction/slice site that the model does not represent")
